@@ -16,6 +16,15 @@ import (
 )
 
 const tinyVlog = 120 // one value-log sized value per file: every such write after the first rotates
+const pairVlog = 200 // two value-log sized values per file: GC of a sealed file finds live and stale entries side by side
+
+// gcSpec: value-log GC that has to REWRITE live entries (b:a; b:b; b:a seals file 0 holding a stale
+// a and a live b), crash points inside sample / rewrite batch / manifest delete / file removal.
+func gcSpec(name string, sync bool, depth, post int) *Spec {
+	return &Spec{Name: name, Cfg: dbh.Config{Engine: "skiplist", Buckets: 1, VlogFileSize: pairVlog, SyncWrites: sync},
+		Mode: "plain", Client: []string{"b:a", "b:b", "d:b"}, Maint: []string{"gc", "rf"}, MaxClient: 3, MaxMaint: depth - 3, Depth: depth,
+		PostDepth: post, PostCrash: post > 0, PostPut: post > 0}
+}
 
 func plainOps() []string { return []string{"s:a", "b:a", "d:a", "b:b"} }
 func txnOps() []string {
@@ -39,7 +48,9 @@ func Specs(o Oracle, quick bool) []*Spec {
 				Mode: "txn", Client: txnOps(), Maint: macro, MaxClient: 3, MaxMaint: 2, Depth: 3})
 			add(&Spec{Name: "txn-huge-walbuf", Cfg: withSync(hugeTweak, true), Mode: "txn", HugeSize: 150 << 10,
 				Client: []string{"t:x=s", "t:x=h,y=h"}, Maint: []string{"rf"}, MaxClient: 2, MaxMaint: 1, Depth: 2})
+			add(gcSpec("plain-gc-rewrite", true, 4, 0))
 		} else {
+			add(gcSpec("plain-gc-rewrite", true, 6, 0))
 			add(&Spec{Name: "plain-skiplist-b1", Cfg: dbh.Config{Engine: "skiplist", Buckets: 1, VlogFileSize: tinyVlog, SyncWrites: true},
 				Mode: "plain", Client: plainOps(), Maint: allMaint, MaxClient: 4, MaxMaint: 4, Depth: 6, RecOpen: true, ShardAt: 3})
 			add(&Spec{Name: "plain-art-b2-rewrite", Cfg: dbh.Config{Engine: "art", Buckets: 2, VlogFileSize: tinyVlog, SyncWrites: true, ManifestRewrite: 1},
@@ -61,7 +72,10 @@ func Specs(o Oracle, quick bool) []*Spec {
 				Mode: "txn", Client: txnOps(), Maint: []string{"rotate", "flush"}, MaxClient: 3, MaxMaint: 2, Depth: 3})
 			add(&Spec{Name: "txn-huge-walbuf-nosync", Cfg: hugeTweak, Mode: "txn", HugeSize: 150 << 10,
 				Client: []string{"t:x=s", "t:x=h,y=h"}, Maint: []string{"rf"}, MaxClient: 2, MaxMaint: 1, Depth: 2})
+			add(gcSpec("plain-gc-rewrite-sync", true, 4, 0))
 		} else {
+			add(gcSpec("plain-gc-rewrite-sync", true, 6, 0))
+			add(gcSpec("plain-gc-rewrite-nosync", false, 6, 0))
 			for _, sync := range []bool{false, true} {
 				add(&Spec{Name: fmt.Sprintf("plain-skiplist-b1-sync=%v", sync), Cfg: dbh.Config{Engine: "skiplist", Buckets: 1, VlogFileSize: tinyVlog, SyncWrites: sync},
 					Mode: "plain", Client: plainOps(), Maint: allMaint, MaxClient: 4, MaxMaint: 4, Depth: 6, RecOpen: true, ShardAt: 3})
@@ -78,18 +92,25 @@ func Specs(o Oracle, quick bool) []*Spec {
 	case C11:
 		if quick {
 			add(&Spec{Name: "plain-skiplist-b1-nosync", Cfg: dbh.Config{Engine: "skiplist", Buckets: 1, VlogFileSize: tinyVlog},
-				Mode: "plain", Client: []string{"s:a", "b:a", "d:a"}, Maint: []string{"rf", "gc"}, MaxClient: 3, MaxMaint: 1, Depth: 3, PostDepth: 2, PostCrash: true})
+				Mode: "plain", Client: []string{"s:a", "b:a", "d:a"}, Maint: []string{"rf", "gc"}, MaxClient: 3, MaxMaint: 1, Depth: 3, PostDepth: 2, PostCrash: true, PostPut: true})
 			add(&Spec{Name: "txn-art-b2-sync", Cfg: dbh.Config{Engine: "art", Buckets: 2, VlogFileSize: tinyVlog, SyncWrites: true},
-				Mode: "txn", Client: []string{"t:x=b", "t:x=d", "t:x=s,y=b"}, Maint: []string{"rf"}, MaxClient: 2, MaxMaint: 1, Depth: 2, PostDepth: 2, PostCrash: true})
+				Mode: "txn", Client: []string{"t:x=b", "t:x=d", "t:x=s,y=b"}, Maint: []string{"rf"}, MaxClient: 2, MaxMaint: 1, Depth: 2, PostDepth: 2, PostCrash: true, PostPut: true})
+			add(gcSpec("plain-gc-rewrite-nosync", false, 4, 2))
+			add(&Spec{Name: "txn-gc-orphan-sync", Cfg: dbh.Config{Engine: "skiplist", Buckets: 1, VlogFileSize: pairVlog, SyncWrites: true},
+				Mode: "txn", Client: []string{"t:x=b", "t:x=d"}, Maint: []string{"rf"}, MaxClient: 2, MaxMaint: 1, Depth: 2, PostDepth: 3, PostCrash: false, PostPut: true})
 		} else {
+			add(&Spec{Name: "txn-gc-orphan-sync", Cfg: dbh.Config{Engine: "skiplist", Buckets: 1, VlogFileSize: pairVlog, SyncWrites: true},
+				Mode: "txn", Client: []string{"t:x=b", "t:x=d", "t:x=b,y=b"}, Maint: []string{"rf"}, MaxClient: 3, MaxMaint: 1, Depth: 3, PostDepth: 3, PostCrash: true, PostPut: true})
+			add(gcSpec("plain-gc-rewrite-nosync", false, 5, 3))
+			add(gcSpec("plain-gc-rewrite-sync", true, 5, 3))
 			add(&Spec{Name: "plain-skiplist-b1-nosync", Cfg: dbh.Config{Engine: "skiplist", Buckets: 1, VlogFileSize: tinyVlog},
-				Mode: "plain", Client: plainOps(), Maint: macro, MaxClient: 3, MaxMaint: 2, Depth: 4, PostDepth: 3, PostCrash: true, ShardAt: 3})
+				Mode: "plain", Client: plainOps(), Maint: macro, MaxClient: 3, MaxMaint: 2, Depth: 4, PostDepth: 3, PostCrash: true, PostPut: true, ShardAt: 3})
 			add(&Spec{Name: "plain-art-b2-sync", Cfg: dbh.Config{Engine: "art", Buckets: 2, VlogFileSize: tinyVlog, SyncWrites: true},
-				Mode: "plain", Client: plainOps(), Maint: macro, MaxClient: 3, MaxMaint: 2, Depth: 4, PostDepth: 3, PostCrash: true, ShardAt: 3})
+				Mode: "plain", Client: plainOps(), Maint: macro, MaxClient: 3, MaxMaint: 2, Depth: 4, PostDepth: 3, PostCrash: true, PostPut: true, ShardAt: 3})
 			add(&Spec{Name: "txn-art-b2-sync-rewrite", Cfg: dbh.Config{Engine: "art", Buckets: 2, VlogFileSize: tinyVlog, SyncWrites: true, ManifestRewrite: 1},
-				Mode: "txn", Client: txnOps(), Maint: macro, MaxClient: 3, MaxMaint: 1, Depth: 3, PostDepth: 3, PostCrash: true})
+				Mode: "txn", Client: txnOps(), Maint: macro, MaxClient: 3, MaxMaint: 1, Depth: 3, PostDepth: 3, PostCrash: true, PostPut: true})
 			add(&Spec{Name: "txn-skiplist-b1-nosync", Cfg: dbh.Config{Engine: "skiplist", Buckets: 1, VlogFileSize: tinyVlog},
-				Mode: "txn", Client: txnOps(), Maint: macro, MaxClient: 3, MaxMaint: 1, Depth: 3, PostDepth: 3, PostCrash: true})
+				Mode: "txn", Client: txnOps(), Maint: macro, MaxClient: 3, MaxMaint: 1, Depth: 3, PostDepth: 3, PostCrash: true, PostPut: true})
 		}
 	}
 	return out
@@ -187,7 +208,7 @@ func Main(o Oracle) {
 			"crash_points_recorded": c["crash_points"], "crash_images_recovered": c["images_recovered"],
 			"distinct_images_by_content_hash": total.Card("images"), "distinct_crash_point_classes": total.Card("classes"),
 			"images_differing_from_both_neighbours": c["images_differ_from_both_neighbours"],
-			"candidates_point":                     c["cand_point"], "candidates_torn_write": c["cand_torn-write"], "candidates_torn_mmap": c["cand_torn-mmap"],
+			"candidates_point":                      c["cand_point"], "candidates_torn_write": c["cand_torn-write"], "candidates_torn_mmap": c["cand_torn-mmap"],
 			"recovered_point": c["recovered_point"], "recovered_torn_write": c["recovered_torn-write"], "recovered_torn_mmap": c["recovered_torn-mmap"],
 			"max_history_depth": c["max_depth"], "nondeterministic_failures_dropped": c["nondeterministic_failures"],
 			"post_schedules": c["post_schedules"], "post_maintenance_steps": c["post_steps"], "post_duplicate_images_skipped": c["post_skipped_duplicate_image"],
